@@ -372,7 +372,25 @@ def rstatus_http_status_table(ctx):
     http_status_table(ctx, "C14.STATUS", ('host_not_allowed', 'malformed'))
 
 
-RULES = [r1_gate, r2_port_table, r3_authority_table, r4_default_port, r5_one_parser_and_enabled_filter, r6_both_sides_spell_hosts_alike, rstatus_http_status_table]
+def r7_parser_fails_closed(ctx):
+    """the authority parser is fail-closed: when a step of Authority::inner_from_str cannot extract what it looks for it
+    returns an error (`?`) - it never collapses an Option/Result into a default (`unwrap_or_default`, `unwrap_or("")`,
+    `.ok()`), because "nothing found" for the port text means Port::Default, i.e. a request with an explicit port would be
+    matched as if it had none"""
+    F, R = ctx.F, ctx.R
+    b = F.one(r"^jsonrpsee_server::middleware::http::authority::Authority::inner_from_str$")
+    bodies = F.nested(b)
+    bad = []
+    for x in bodies:
+        R.fn(x)
+        bad += [c for c in x.calls_to(r"(Option|Result)::<.*>::(unwrap_or_default|unwrap_or|unwrap_or_else|ok|map_or|map_or_else|unwrap|expect)$|Option::<.*>::(or|or_else|xor)$") if not c.exp]
+    R.check(not bad, "C14.R7", "inner_from_str:fails-closed", "every failed step of the authority parser is an error", "Authority::inner_from_str collapses a failed step into a default (%s): when the port text cannot be cut out (e.g. an authority with userinfo) the port is silently read as `default`, so `user@host:8080` is matched like `host`" % sorted({short(c.name()) for c in bad}), where(bad[0]) if bad else "%s:%d" % (b.file, b.lo))
+    # the port text comes from the authority string itself
+    sp = [c for x in bodies for c in x.calls_to(r"str::<impl str>::(split_once|rsplit_once|rfind|find|split)$")]
+    R.check(bool(sp), "C14.R7", "inner_from_str:port-from-authority-text", "the port is cut out of the authority text", "inner_from_str no longer cuts the port out of the authority text", "%s:%d" % (b.file, b.lo))
+
+
+RULES = [r1_gate, r2_port_table, r3_authority_table, r4_default_port, r5_one_parser_and_enabled_filter, r6_both_sides_spell_hosts_alike, r7_parser_fails_closed, rstatus_http_status_table]
 
 LEVEL_TEXT = (
     "The gate (who may reach the inner service) is decided by dominance for every path of HostFilter::call, and the three "
